@@ -61,7 +61,17 @@ def build_harness(run, race=False):
     if os.path.exists(out):
         return out
     cmd = ["go", "build", "-tags", "verif"] + (["-race"] if race else []) + ["-o", out, "."]
-    p = subprocess.run(cmd, cwd=HARNESS, env=goenv(), capture_output=True, text=True)
+    src = HARNESS
+    alt = os.environ.get("VERIF_REPO")
+    if alt:
+        # self-test only (seeded mutants in scratch worktrees): the registered commands never set it,
+        # they always build against /repo's working tree
+        src = run.path("harness-src")
+        if not os.path.isdir(src):
+            shutil.copytree(HARNESS, src, ignore=shutil.ignore_patterns("vh", "vh-race"))
+            gm = open(os.path.join(src, "go.mod")).read().replace("=> /repo", "=> " + alt)
+            open(os.path.join(src, "go.mod"), "w").write(gm)
+    p = subprocess.run(cmd, cwd=src, env=goenv(), capture_output=True, text=True)
     if p.returncode != 0:
         raise Infra("harness does not build against /repo:\n" + p.stdout + p.stderr)
     return out
@@ -249,18 +259,21 @@ def load_known():
     return [k for k in json.load(open(p))["findings"] if k.get("status") == "known"]
 
 
+OUT = os.environ.get("VERIF_OUT", VERIF)   # self-test runs redirect evidence / replays
+
+
 def write_replay(run, clause, payload):
-    os.makedirs(os.path.join(VERIF, "replays"), exist_ok=True)
+    os.makedirs(os.path.join(OUT, "replays"), exist_ok=True)
     blob = json.dumps(payload, sort_keys=True)
     dig = hashlib.sha1(blob.encode()).hexdigest()[:10]
-    path = os.path.join(VERIF, "replays", "%s-%s.json" % (run.prop, dig))
+    path = os.path.join(OUT, "replays", "%s-%s.json" % (run.prop, dig))
     with open(path, "w") as f:
         json.dump(payload, f, indent=1, sort_keys=True)
     return path
 
 
 def write_evidence(run, level, coverage, assumptions, violations):
-    os.makedirs(os.path.join(VERIF, "evidence"), exist_ok=True)
+    os.makedirs(os.path.join(OUT, "evidence"), exist_ok=True)
     ev = {
         "property_id": run.prop,
         "tier": run.tier,
@@ -271,7 +284,7 @@ def write_evidence(run, level, coverage, assumptions, violations):
         "wall_s": round(run.elapsed(), 1),
         "violations": violations,
     }
-    with open(os.path.join(VERIF, "evidence", run.prop + ".json"), "w") as f:
+    with open(os.path.join(OUT, "evidence", run.prop + ".json"), "w") as f:
         json.dump(ev, f, indent=1)
     return ev
 
